@@ -13,6 +13,7 @@ import (
 	"errors"
 	"fmt"
 	"io"
+	"strconv"
 	"strings"
 	"sync"
 	"testing"
@@ -138,6 +139,21 @@ func (t *fakeTx) Rollback() error {
 type step struct {
 	Kind  string `json:"kind"`  // ok | err | panic | exec
 	Group int    `json:"group"` // steps with the same non-zero group are wrapped in one Combine
+	// ErrKind (kind err): which error value the step returns. 0: an error of the harness's own; the others are values an
+	// implementation might be tempted to treat specially (the transaction's own context is alive in all of them)
+	ErrKind int `json:"err_kind"`
+}
+
+var errValues = []func(i int) error{
+	func(i int) error { return &stepErr{i} },
+	func(i int) error { return context.Canceled },
+	func(i int) error { return context.DeadlineExceeded },
+	func(i int) error { return sql.ErrTxDone },
+	func(i int) error { return gorm.ErrRecordNotFound },
+	func(i int) error { return fmt.Errorf("step %d: %w", i, context.Canceled) },
+	func(i int) error { return driver.ErrBadConn },
+	func(i int) error { return io.EOF },
+	func(i int) error { return sql.ErrConnDone },
 }
 
 type C18Scenario struct {
@@ -153,8 +169,9 @@ func drawC18(rt *rapid.T) interface{} {
 	n := rapid.IntRange(0, hx.Pick(5, 8)).Draw(rt, "nsteps")
 	for i := 0; i < n; i++ {
 		sc.Steps = append(sc.Steps, step{
-			Kind:  rapid.SampledFrom([]string{"ok", "ok", "ok", "exec", "exec", "err", "panic", "panic", "panicnil", "panicerr", "cancelctx"}).Draw(rt, "kind"),
-			Group: rapid.SampledFrom([]int{0, 0, 1, 2}).Draw(rt, "group"),
+			Kind:    rapid.SampledFrom([]string{"ok", "ok", "ok", "exec", "exec", "err", "err", "panic", "panic", "panicnil", "panicerr", "cancelctx"}).Draw(rt, "kind"),
+			Group:   rapid.SampledFrom([]int{0, 0, 1, 2}).Draw(rt, "group"),
+			ErrKind: rapid.IntRange(0, len(errValues)-1).Draw(rt, "errkind"),
 		})
 	}
 	sc.FailBegin = rapid.IntRange(0, 5).Draw(rt, "fbegin") == 0
@@ -204,7 +221,7 @@ func runC18(t *testing.T, sci interface{}, keepLog bool) *hx.Outcome {
 			fdb.add(fmt.Sprintf("step%d", i))
 			switch s.Kind {
 			case "err":
-				e := &stepErr{i}
+				e := errValues[s.ErrKind%len(errValues)](i)
 				stepErrs[i] = e
 				return e
 			case "panic":
@@ -368,6 +385,9 @@ func runC18(t *testing.T, sci interface{}, keepLog bool) *hx.Outcome {
 			}
 		} else {
 			o.Counts["step-failure-"+sc.Steps[firstFail].Kind]++
+			if sc.Steps[firstFail].Kind == "err" && sc.Steps[firstFail].ErrKind != 0 {
+				o.Counts["step-failure-with-well-known-error-value"]++
+			}
 			if rollbacks != 1 || commits != 0 {
 				fail("no-rollback-after-failure", "step %d failed (%s): expected one rollback and no commit, saw %d rollback(s), %d commit(s)", firstFail, sc.Steps[firstFail].Kind, rollbacks, commits)
 			}
@@ -404,6 +424,9 @@ func kinds(ss []step) string {
 	var b strings.Builder
 	for _, s := range ss {
 		b.WriteString(s.Kind[:2])
+		if s.Kind == "err" {
+			b.WriteString(strconv.Itoa(s.ErrKind))
+		}
 		b.WriteString(fmt.Sprint(s.Group))
 		b.WriteByte(',')
 	}
@@ -418,9 +441,9 @@ func TestC18(t *testing.T) {
 		Run:         runC18,
 		Real:        []string{"store/gormx.Transact and Combine (unmodified)", "gorm v1.25.1 (Begin/Commit/Rollback/Exec)", "gorm MySQL dialector v1.5.1", "database/sql"},
 		Stubs:       []string{"database/sql/driver (in-process fake: records begin/commit/rollback/exec, fails begin, commit, rollback or the n-th exec on demand)"},
-		Rule: "scenario = 0-5 steps, each succeeding, returning an error, panicking or executing a statement through the transaction (the n-th exec may fail), optionally wrapped in Combine groups, x begin / commit / rollback each failing or not; " +
+		Rule: "scenario = 0-5 steps, each succeeding, returning an error (its own, or a well-known value: context.Canceled / DeadlineExceeded also wrapped, sql.ErrTxDone / ErrConnDone, gorm.ErrRecordNotFound, driver.ErrBadConn, io.EOF - with the transaction's context alive), panicking or executing a statement through the transaction (the n-th exec may fail), optionally wrapped in Combine groups, x begin / commit / rollback each failing or not; " +
 			"oracle over the driver's event log and the returned error; non-trivial = >=1 step; distinct = distinct (step kinds, grouping, fault flags, driver event sequence)",
-		Probes:      []string{"all-steps-ok", "begin-failure", "commit-failure", "rollback-failure", "step-failure-err", "step-failure-exec", "step-failure-panic", "step-failure-panicnil", "step-failure-panicerr", "context-cancelled-before-commit"},
+		Probes:      []string{"all-steps-ok", "begin-failure", "commit-failure", "rollback-failure", "step-failure-err", "step-failure-with-well-known-error-value", "step-failure-exec", "step-failure-panic", "step-failure-panicnil", "step-failure-panicerr", "context-cancelled-before-commit"},
 		Assumptions: []string{"runs outside the synctest bubble (database/sql has goroutines and real mutexes of its own); no schedule is involved"},
 	})
 }
